@@ -15,7 +15,7 @@ RULE = ('documents of 0-8 board results from Hypothesis: ids and the four player
         'vulnerability (inside the contract), full deal, every Scoring member, auction (legal complete auctions AND '
         'arbitrary call lists), contract (35 bids x 3 doubling states x declarer, both passed-out forms), play history '
         'None / 0-13 recorded tricks, trick count None / 0-13, scores, optional full double-dummy table; written through '
-        'JsonLogWriter via open()/close() or via "with" (drawn), on a StringIO or on a real text file in a drawn encoding (utf-8, ascii, latin-1, cp1252, utf-16 - the table manager opens its log in the locale\'s encoding) that is read back in the same encoding. Oracle: (1) json.loads succeeds and has '
+        'JsonLogWriter via open()/close() or via "with" (drawn), on a StringIO or on a real text file in a drawn encoding (utf-8, ascii, latin-1, cp1252, utf-16 - the table manager opens its log in the locale\'s encoding) that is read back in the same encoding; in a third of the documents one or two writes that FAIL (a result whose double-dummy table holds a set) are attempted in between. Oracle: (1) json.loads succeeds and has '
         'one record per result; (2) jsonschema Draft7Validator with the two shipped schema files reports no error; (3) '
         'JsonParser.parse_board_logs returns records equal field by field to what was written, as value objects (Player '
         'keys, Vul, Hands, Bid list, Contract level/strain/doubling/vul/declarer, TrickHistory.leader a Player, Pair '
@@ -107,7 +107,12 @@ def undescribe(d):
 MEDIA = ['stringio', 'stringio', 'utf-8', 'ascii', 'latin-1', 'cp1252', 'utf-16']
 
 
-def write_document(results, use_with, medium='stringio'):
+class PoisonAccepted(Exception):
+    """A result that cannot be written today (a set in its double-dummy table) was accepted: nothing can be predicted
+    about such a document, the case is skipped (counted)."""
+
+
+def write_document(results, use_with, medium='stringio', poison=()):
     """medium: 'stringio' or the encoding of a real text file (the table manager writes its log with open(path, 'w'),
     i.e. in the locale's encoding, whatever that is)."""
     from bridge_env.data_handler.json_handler.writer import JsonLogWriter
@@ -118,7 +123,7 @@ def write_document(results, use_with, medium='stringio'):
         path = os.path.join(d, f'doc-{os.getpid()}.json')
         try:
             with open(path, 'w', encoding=medium) as buf:
-                _emit_all(buf, results, use_with)
+                _emit_all(buf, results, use_with, poison)
             with open(path, 'r', encoding=medium) as f:
                 return f.read()
         finally:
@@ -127,16 +132,32 @@ def write_document(results, use_with, medium='stringio'):
             except OSError:
                 pass
     buf = io.StringIO()
-    _emit_all(buf, results, use_with)
+    _emit_all(buf, results, use_with, poison)
     return buf.getvalue()
 
 
-def _emit_all(buf, results, use_with):
+def _emit_all(buf, results, use_with, poison=()):
     from bridge_env.data_handler.json_handler.writer import JsonLogWriter
     from bridge_env.data_handler.pbn_handler.writer import Scoring
 
     def emit(w):
-        for r in results:
+        for i, r in enumerate(results):
+            if i in poison:
+                # a write that FAILS (its double-dummy table holds a set, which the writer cannot serialise) must leave
+                # the document as it was: the results written before and after it still form one valid document
+                contract = mk_contract(r)
+                bad = {be.SEAT[s]: {be.SUIT[k]: {1, 2} for k in range(5)} for s in range(4)}
+                try:
+                    w.write(board_id=r['board_id'], west_player=r['players'][3], north_player=r['players'][0],
+                            east_player=r['players'][1], south_player=r['players'][2], dealer=be.SEAT[r['dealer']],
+                            deal=be.hands_from_owner(r['owner']), scoring=Scoring[r['scoring']],
+                            bid_history=[be.BID[c] for c in r['auction']], contract=contract,
+                            play_history=mk_history(r, contract), taken_trick_num=r['tricks'],
+                            scores={be.PAIR[0]: r['scores'][0], be.PAIR[1]: r['scores'][1]}, dda=bad)
+                except Exception:  # noqa
+                    pass
+                else:
+                    raise PoisonAccepted()
             contract = mk_contract(r)
             w.write(board_id=r['board_id'], west_player=r['players'][3], north_player=r['players'][0],
                     east_player=r['players'][1], south_player=r['players'][2], dealer=be.SEAT[r['dealer']],
@@ -154,12 +175,22 @@ def _emit_all(buf, results, use_with):
         w.close()
 
 
-def check_document(results, use_with, stats=None, medium='stringio'):
+def check_document(results, use_with, stats=None, medium='stringio', poison=()):
     from bridge_env.data_handler.json_handler.parser import JsonParser
     from bridge_env.data_handler.pbn_handler.writer import Scoring
     from bridge_env import Player, Pair, Suit, Bid, Card, Vul
-    case = {'results': [describe(r) for r in results], 'use_with': use_with, 'medium': medium}
-    text = guard('JsonLogWriter raises', case, write_document, results, use_with, medium)
+    poison = sorted({p for p in poison if p < len(results)})
+    case = {'results': [describe(r) for r in results], 'use_with': use_with, 'medium': medium, 'failed_writes_before': poison}
+    try:
+        text = guard('JsonLogWriter raises', case, write_document, results, use_with, medium, poison)
+    except Violation as v:
+        if isinstance(v.__cause__, PoisonAccepted):
+            if stats is not None:
+                stats.excluded['unserialisable result was accepted by the writer'] += 1
+            return
+        raise
+    if stats is not None and poison:
+        stats.cls('documents with a failed write in between')
     # (1) one valid JSON document
     try:
         doc = json.loads(text)
@@ -236,9 +267,9 @@ def check_document(results, use_with, stats=None, medium='stringio'):
 
 def fuzz_target(name, stats):
     """(test function, strategies) - shared by the in-process Hypothesis tier and the atheris tier."""
-    return (lambda results, use_with, medium: check_document(results, use_with, stats, medium),
+    return (lambda results, use_with, medium, poison: check_document(results, use_with, stats, medium, poison),
             {'results': st.lists(GB.result(st.text(max_size=12)), min_size=0, max_size=8), 'use_with': st.booleans(),
-             'medium': st.sampled_from(MEDIA)})
+             'medium': st.sampled_from(MEDIA), 'poison': st.one_of(st.just([]), st.just([]), st.lists(st.integers(0, 7), max_size=2))})
 
 
 def run_shard(spec, seed, tier, stats):
@@ -253,7 +284,7 @@ def run_shard(spec, seed, tier, stats):
 def replay(rec):
     c = rec['case']
     try:
-        check_document([undescribe(d) for d in c['results']], c['use_with'], None, c.get('medium', 'stringio'))
+        check_document([undescribe(d) for d in c['results']], c['use_with'], None, c.get('medium', 'stringio'), c.get('failed_writes_before', ()))
     except Violation as v:
         return v
     return None
